@@ -89,6 +89,23 @@ def run(env):
     for c, o in list(zip(cases, outs))[:: max(1, len(cases) // 6)]:
         if env.harness([c])[0] != o:
             env.violation("generators differ between processes on %s" % c["ctx"], {"kind": "battery", "case": c})
+    # call history: one process asks for growing, shrinking and repeated counts under the same and under alternating seeds;
+    # every answer must be the prefix of what a fresh process derives (the list is a function of (seed, index) only)
+    for ctx in ("R", "B:2039", "M:2039", "B:%d" % P62, "M:2048"):
+        sa, sb_ = "x:6869", "x:"
+        seq = [(8, sa), (20, sa), (5, sa), (33, sa), (33, sa), (2, sb_), (40, sa), (41, sb_), (7, sb_), (64, sb_), (1, sa), (65, sa)]
+        if ctx == "M:2048":
+            seq = [(2, sa), (5, sa), (3, sb_), (6, sa)]
+        sc = [{"ctx": ctx, "op": "generators", "args": [str(n), sd], "tag": "call-history"} for n, sd in seq]
+        so = env.harness(sc)
+        fresh = {sd: env.harness([{"ctx": ctx, "op": "generators", "args": [str(max(n for n, d in seq if d == sd)), sd], "tag": "call-history-ref"}])[0] for sd in (sa, sb_)}
+        for k, (c, o) in enumerate(zip(sc, so)):
+            n, sd = seq[k]
+            if o != fresh[sd][:n]:
+                bad = next((i for i, (a, b) in enumerate(zip(o, fresh[sd])) if a != b), "?") if isinstance(o, list) else o
+                env.violation("generators depend on call history on %s: call #%d generators(%d, %s) after %s differs from a fresh process at index %s"
+                              % (ctx, k, n, sd, seq[:k], bad), {"kind": "battery", "case": sc[:k + 1], "out": o if not isinstance(o, list) else o[:8]})
+                break
     fails = env.tie(items, "C17", shard=6)
     # ristretto against SHAKE-256 (hashlib) + dalek's from_uniform_bytes
     for sd, n in ((b"", 40 if env.quick else 2000), (b"seed", 40 if env.quick else 2000), (b"\xff", 40), (r.randbytes(1024), 40), (b"large", 1100 if env.quick else 5000)):
